@@ -944,3 +944,573 @@ Qed.
 Theorem reachable_SInv : forall g ops ans,
   SInv g (fst (sb_run g sb_init ans ops)) /\ SCap (fst (sb_run g sb_init ans ops)).
 Proof. intros g ops ans. split; [apply run_SInv, SInv_init|apply run_SCap, SCap_init]. Qed.
+
+(* ------------------------------------------------------------------------------------------------ *)
+(* 2. what is stored is what was appended                                                             *)
+
+(* the pool after a successful store, and the node returned: functions of the pool and the string only *)
+Definition pool_put (s : bytes) (p : list snode) : list snode :=
+  match pool_find s p with Some k => pool_addref k p | None => fresh s :: p end.
+Definition pool_node (s : bytes) (p : list snode) : option snode :=
+  match pool_find s p with Some k => nth_error (pool_addref k p) k | None => Some (fresh s) end.
+
+Theorem store_result : forall g st ans s st' ans' ev x,
+  sb_store g st ans s = (st', ans', ev, Some x) ->
+  sb_pool st' = pool_put s (sb_pool st) /\ pool_node s (sb_pool st) = Some x.
+Proof.
+  intros g st ans s st' ans' ev x H.
+  pose proof (store_cases g st ans s) as C. rewrite H in C. unfold pool_put, pool_node.
+  inversion C; subst; cbn [mk sb_pool].
+  - match goal with F : pool_find s _ = Some _ |- _ => rewrite F end.
+    split; [reflexivity|]. apply addref_nth_same. assumption.
+  - match goal with F : pool_find s _ = None |- _ => rewrite F end. split; reflexivity.
+Qed.
+
+(* the node returned and the pool do not depend on the scratch node left by earlier strings,
+   nor on the allocator answers (as long as the store succeeds) *)
+Theorem store_scratch_indep : forall g sta stb ansa ansb s sta' stb' ansa' ansb' eva evb xa xb,
+  sb_pool sta = sb_pool stb ->
+  sb_store g sta ansa s = (sta', ansa', eva, Some xa) ->
+  sb_store g stb ansb s = (stb', ansb', evb, Some xb) ->
+  xa = xb /\ sb_pool sta' = sb_pool stb'.
+Proof.
+  intros g sta stb ansa ansb s sta' stb' ansa' ansb' eva evb xa xb P Ha Hb.
+  destruct (store_result _ _ _ _ _ _ _ _ Ha) as [A1 A2].
+  destruct (store_result _ _ _ _ _ _ _ _ Hb) as [B1 B2].
+  rewrite P in A1, A2. split; congruence.
+Qed.
+
+Lemma node_ok_len : forall g x, node_ok g x -> n_len x = N.of_nat (length (n_content x)).
+Proof. intros g x K. rewrite (node_ok_content g x K). destruct K as [K _]. exact K. Qed.
+
+Theorem store_stored : forall g st ans s st' ans' ev x,
+  SInv g st -> sb_store g st ans s = (st', ans', ev, Some x) ->
+  n_content x = s /\ n_len x = N.of_nat (length s) /\ n_data x = s /\
+  In x (sb_pool st') /\ occ s (sb_pool st') = 1%nat.
+Proof.
+  intros g st ans s st' ans' ev x K H.
+  pose proof (store_SInv _ _ _ _ _ _ _ _ K H) as [[F' ND'] _].
+  destruct (store_result _ _ _ _ _ _ _ _ H) as [P X].
+  assert (I : In x (sb_pool st')).
+  { rewrite P. unfold pool_put, pool_node in *. destruct (pool_find s (sb_pool st)) as [k|].
+    - eapply nth_error_In. exact X.
+    - inversion X; subst. left. reflexivity. }
+  assert (Cx : n_content x = s).
+  { unfold pool_node in X. destruct (pool_find s (sb_pool st)) as [k|] eqn:Fd.
+    - destruct (pool_find_some _ _ _ Fd) as (y & Hy & Hc & _).
+      rewrite (addref_nth_same _ _ _ Hy) in X. inversion X; subst. reflexivity.
+    - inversion X; subst. apply content_fresh. }
+  assert (Kx : node_ok g x) by (rewrite Forall_forall in F'; apply F'; exact I).
+  split; [exact Cx|]. split; [rewrite <- Cx; apply (node_ok_len g); exact Kx|].
+  split; [rewrite <- (node_ok_content g x Kx); exact Cx|]. split; [exact I|].
+  apply occ_nodup_in; [exact ND'|]. rewrite <- Cx. apply in_map. exact I.
+Qed.
+
+(* ------------------------------------------------------------------------------------------------ *)
+(* 3. sharing                                                                                         *)
+
+Theorem store_shared : forall g st ans s k y st' ans' ev x,
+  pool_find s (sb_pool st) = Some k -> nth_error (sb_pool st) k = Some y ->
+  sb_store g st ans s = (st', ans', ev, Some x) ->
+  (* the node found is returned, with one more reference; every other node is unchanged; no node is made *)
+  x = bump y /\ sb_pool st' = pool_addref k (sb_pool st) /\
+  nth_error (sb_pool st') k = Some x /\
+  (forall j, j <> k -> nth_error (sb_pool st') j = nth_error (sb_pool st) j) /\
+  length (sb_pool st') = length (sb_pool st) /\
+  (* the events are those of startString and of the appends: none from save *)
+  (exists st1 ans1 e1 st2 e2,
+     sb_start g st ans = (st1, ans1, e1) /\ sb_appends g st1 ans1 s = (st2, ans', e2) /\ ev = e1 ++ e2) /\
+  (* the scratch node is kept, so that the next startString makes no allocator call *)
+  sb_scratch st' <> None /\
+  (forall ans2, exists cap, sb_start g st' ans2 = (mk (sb_pool st') (Some (cap, 0, [])), ans2, [])).
+Proof.
+  intros g st ans s k y st' ans' ev x F Hy H.
+  pose proof (store_cases g st ans s) as C. rewrite H in C.
+  inversion C; subst; [|congruence].
+  match goal with F' : pool_find s _ = Some ?k0 |- _ => assert (k0 = k) by congruence; subst k0 end.
+  match goal with Y : nth_error (sb_pool st) k = Some ?y0 |- _ => assert (y0 = y) by congruence; subst y0 end.
+  cbn [mk sb_pool sb_scratch].
+  split; [reflexivity|]. split; [reflexivity|].
+  split; [apply addref_nth_same; exact Hy|].
+  split; [intros j Hj; apply addref_nth_other; exact Hj|].
+  split; [apply addref_length|].
+  split; [exists st1, ans1, e1, st2, e2; auto|].
+  split; [discriminate|].
+  intros ans2. apply start_kept. cbn [mk sb_scratch]. discriminate.
+Qed.
+
+(* under the invariant: the events of a sharing store are at most one allocation of the initial node and
+   successful doublings of the scratch node *)
+Theorem store_shared_events : forall g st ans s k st' ans' ev x,
+  SInv g st -> pool_find s (sb_pool st) = Some k ->
+  sb_store g st ans s = (st', ans', ev, Some x) ->
+  exists e1 e2, ev = e1 ++ e2 /\ (e1 = [] \/ e1 = [EvAlloc (size_for g 31) true]) /\ Forall (is_grow g) e2.
+Proof.
+  intros g st ans s k st' ans' ev x [_ K] F H.
+  pose proof (store_cases g st ans s) as C. rewrite H in C.
+  inversion C; subst; [|congruence].
+  exists e1, e2. split; [reflexivity|].
+  pose proof (start_cases g st ans) as SC.
+  match goal with S1 : sb_start g st ans = _ |- _ => rewrite S1 in SC; pose proof (start_scratch_ok _ _ _ _ _ _ S1 K) as K1 end.
+  assert (N2 : sb_scratch st2 <> None) by congruence.
+  destruct (sb_scratch st1) as [[[cap1 sz1] rw1]|] eqn:E1.
+  - split.
+    + inversion SC; subst; auto. cbn [mk sb_scratch] in *. congruence.
+    + destruct K1 as (_ & _ & _ & K1). eapply appends_grow_events; eassumption.
+  - match goal with S2 : sb_appends g st1 _ s = _ |- _ => rewrite appends_none in S2 by exact E1; inversion S2; subst end.
+    congruence.
+Qed.
+
+(* ------------------------------------------------------------------------------------------------ *)
+(* 4. failure is clean, and when it happens                                                           *)
+
+Theorem store_fail_clean : forall g st ans s st' ans' ev,
+  sb_store g st ans s = (st', ans', ev, None) ->
+  sb_pool st' = sb_pool st /\ sb_scratch st' = None.
+Proof.
+  intros g st ans s st' ans' ev H.
+  pose proof (store_cases g st ans s) as C. rewrite H in C.
+  inversion C; subst. split; assumption.
+Qed.
+
+Lemma appends_answers0 : forall g T p cap ans s st2 ans2 e2, Top g T -> reach cap T ->
+  sb_appends g (mk p (Some (cap, 0, []))) ans s = (st2, ans2, e2) ->
+  exists pre, ans = pre ++ ans2 /\ (sb_scratch st2 = None -> In false pre \/ T < blen s).
+Proof.
+  intros g T p cap ans s st2 ans2 e2 TT R A.
+  destruct (appends_answers g T TT s (mk p (Some (cap, 0, []))) ans cap 0 [] st2 ans2 e2 eq_refl A)
+    as (pre & P1 & P2); [lia|exact R|].
+  exists pre. split; [exact P1|]. rewrite N.add_0_l in P2. exact P2.
+Qed.
+
+(* a failed store consumed a `false` answer, or the string is longer than the largest capacity 31, 63, 127, ...
+   that fits the length field *)
+Theorem store_fail_why : forall g st ans s st' ans' ev,
+  SInv g st -> SCap st -> 31 <= s_max g ->
+  sb_store g st ans s = (st', ans', ev, None) ->
+  exists pre, ans = pre ++ ans' /\ (In false pre \/ top_cap g < blen s).
+Proof.
+  intros g st ans s st' ans' ev [_ K] KC M H.
+  pose proof (store_cases g st ans s) as C. rewrite H in C.
+  inversion C; subst.
+  pose proof (start_cases g st ans) as SC.
+  match goal with S1 : sb_start g st ans = _ |- _ => rewrite S1 in SC end.
+  pose proof (top_cap_top g) as TT. pose proof (top_cap_reach g M) as TR.
+  destruct (take_frame ans) as (p0 & F1 & F2 & _).
+  inversion SC; subst.
+  - match goal with E : sb_scratch st = Some _ |- _ => unfold SCap in KC; rewrite E in K, KC end.
+    destruct K as (_ & _ & K3 & _).
+    assert (R : reach cap (top_cap g)) by (eapply reach_top; eassumption).
+    match goal with S2 : sb_appends g _ _ s = _ |- _ =>
+      destruct (appends_answers0 _ _ _ _ _ _ _ _ _ TT R S2) as (pre & P1 & P2) end.
+    exists pre. split; [exact P1|]. apply P2. assumption.
+  - lia.
+  - match goal with S2 : sb_appends g _ _ s = _ |- _ =>
+      destruct (appends_answers0 _ _ _ _ _ _ _ _ _ TT TR S2) as (pre & P1 & P2) end.
+    exists (p0 ++ pre). split; [rewrite <- app_assoc, <- P1; exact F1|].
+    destruct P2 as [P2|P2]; [assumption| |right; exact P2].
+    left. apply in_or_app. right. exact P2.
+  - match goal with S2 : sb_appends g _ _ s = _ |- _ => rewrite appends_none in S2 by assumption; inversion S2; subst end.
+    exists p0. split; [exact F1|]. left. apply F2. assumption.
+Qed.
+
+(* a stored string fits the largest capacity *)
+Theorem store_ok_fits : forall g st ans s st' ans' ev x,
+  SInv g st -> SCap st ->
+  sb_store g st ans s = (st', ans', ev, Some x) -> blen s <= top_cap g /\ blen s <= s_max g.
+Proof.
+  intros g st ans s st' ans' ev x [_ K] KC H.
+  pose proof (store_cases g st ans s) as C. rewrite H in C.
+  assert (G : forall st1 ans1 e1 st2 ans2 e2 cap,
+            sb_start g st ans = (st1, ans1, e1) -> sb_appends g st1 ans1 s = (st2, ans2, e2) ->
+            sb_scratch st2 = Some (cap, blen s, rev s) -> blen s <= top_cap g /\ blen s <= s_max g).
+  { intros st1 ans1 e1 st2 ans2 e2 cap S1 S2 E2.
+    pose proof (store_mid_ok _ _ _ _ _ _ _ _ _ _ S1 S2 K) as K2.
+    pose proof (store_mid_scap _ _ _ _ _ _ _ _ _ _ S1 S2 KC) as KC2.
+    unfold SCap in KC2. rewrite E2 in K2, KC2. destruct K2 as (_ & K2 & K3 & K4).
+    assert (M : 31 <= s_max g) by lia.
+    pose proof (reach_top g _ _ (top_cap_top g) (top_cap_reach g M) KC2 K3) as R.
+    apply reach_le in R. lia. }
+  inversion C; subst; eapply G; eassumption.
+Qed.
+
+(* with an allocator that never refuses, the store fails exactly when the string is longer than the largest
+   capacity of the sequence 31, 63, 127, ... that the length field can hold *)
+Theorem store_alltrue_iff : forall g st ans s,
+  SInv g st -> SCap st -> 31 <= s_max g -> alltrue ans ->
+  (snd (sb_store g st ans s) = None <-> top_cap g < blen s).
+Proof.
+  intros g st ans s K KC M A.
+  destruct (sb_store g st ans s) as [[[st' ans'] ev] [x|]] eqn:H; cbn [snd].
+  - split; [discriminate|]. intros L.
+    destruct (store_ok_fits _ _ _ _ _ _ _ _ K KC H) as [L' _]. lia.
+  - split; [|reflexivity]. intros _.
+    destruct (store_fail_why _ _ _ _ _ _ _ K KC M H) as (pre & P1 & [P2|P2]); [|exact P2].
+    assert (false = true) by (apply A; rewrite P1; apply in_or_app; left; exact P2). discriminate.
+Qed.
+
+(* when the length field holds 2^k - 1 (k >= 5: 8, 16 or 32-bit length fields), every string that fits the
+   length field is stored *)
+Theorem store_alltrue_pow : forall g k st ans s,
+  SInv g st -> SCap st -> s_max g = 2 ^ k - 1 -> 5 <= k -> alltrue ans ->
+  (snd (sb_store g st ans s) = None <-> s_max g < blen s).
+Proof.
+  intros g k st ans s K KC E Hk A. rewrite <- (top_cap_pow g k E).
+  apply store_alltrue_iff; try assumption.
+  rewrite E. assert (2 ^ 5 <= 2 ^ k) by (apply N.pow_le_mono_r; lia).
+  change (2 ^ 5) with 32 in *. lia.
+Qed.
+
+Corollary store_alltrue_65535 : forall g st ans s,
+  SInv g st -> SCap st -> s_max g = 65535 -> alltrue ans -> N.of_nat (length s) <= 65535 ->
+  exists st' ans' ev x, sb_store g st ans s = (st', ans', ev, Some x).
+Proof.
+  intros g st ans s K KC E A L.
+  pose proof (store_alltrue_pow g 16 st ans s K KC E ltac:(lia) A) as [H _].
+  destruct (sb_store g st ans s) as [[[st' ans'] ev] [x|]]; [exists st', ans', ev, x; reflexivity|].
+  specialize (H eq_refl). unfold blen in H. lia.
+Qed.
+
+Corollary store_alltrue_255 : forall g st ans s,
+  SInv g st -> SCap st -> s_max g = 255 -> alltrue ans -> N.of_nat (length s) <= 255 ->
+  exists st' ans' ev x, sb_store g st ans s = (st', ans', ev, Some x).
+Proof.
+  intros g st ans s K KC E A L.
+  pose proof (store_alltrue_pow g 8 st ans s K KC E ltac:(lia) A) as [H _].
+  destruct (sb_store g st ans s) as [[[st' ans'] ev] [x|]]; [exists st', ans', ev, x; reflexivity|].
+  specialize (H eq_refl). unfold blen in H. lia.
+Qed.
+
+(* a length field too small for the initial node: nothing can be stored, and the allocator is never called *)
+Theorem store_tiny : forall g st ans s,
+  SInv g st -> s_max g < 31 -> sb_store g st ans s = (st, ans, [], None).
+Proof.
+  intros g st ans s [_ K] M.
+  assert (E : sb_scratch st = None).
+  { destruct (sb_scratch st) as [[[cap sz] rw]|]; [|reflexivity]. cbn [scratch_ok] in K. lia. }
+  unfold sb_store. pose proof (start_cases g st ans) as SC.
+  inversion SC; try congruence; try lia.
+  rewrite appends_none by exact E. rewrite E. reflexivity.
+Qed.
+
+(* ------------------------------------------------------------------------------------------------ *)
+(* 5. allocator traffic                                                                               *)
+
+Lemma store_mid_count : forall g st ans s st1 ans1 e1 st2 ans2 e2,
+  scratch_ok g (sb_scratch st) ->
+  sb_start g st ans = (st1, ans1, e1) -> sb_appends g st1 ans1 s = (st2, ans2, e2) ->
+  (length e1 <= 1)%nat /\ (e2 = [] \/ N.of_nat (length e2) + 3 <= N.log2 (blen s)).
+Proof.
+  intros g st ans s st1 ans1 e1 st2 ans2 e2 K S1 S2.
+  split.
+  - destruct (start_events _ _ _ _ _ _ S1) as [->|(_ & _ & b & ->)]; cbn [length]; lia.
+  - pose proof (start_scratch_ok _ _ _ _ _ _ S1 K) as K1.
+    destruct (start_shape _ _ _ _ _ _ S1) as [_ [N1|(cap & E1)]].
+    + rewrite appends_none in S2 by exact N1. inversion S2; subst. left. reflexivity.
+    + rewrite E1 in K1. destruct K1 as (_ & _ & _ & K1).
+      destruct (appends_ev_count _ _ _ _ _ _ _ _ _ _ E1 S2) as [H|H]; [lia|left; exact H|right].
+      rewrite N.add_0_l in H.
+      assert (P : 0 < 2 ^ N.of_nat (length e2)) by apply pow2_pos.
+      assert (L : 2 ^ (N.of_nat (length e2) + 3) <= blen s).
+      { rewrite N.pow_add_r. change (2 ^ 3) with 8. nia. }
+      apply N.log2_le_pow2; [|exact L].
+      pose proof (pow2_pos (N.of_nat (length e2) + 3)). lia.
+Qed.
+
+Theorem store_events_count : forall g st ans s st' ans' ev r,
+  SInv g st -> sb_store g st ans s = (st', ans', ev, r) ->
+  N.of_nat (length ev) <= N.max 2 (N.log2 (blen s) - 1).
+Proof.
+  intros g st ans s st' ans' ev r [_ K] H.
+  pose proof (store_cases g st ans s) as C. rewrite H in C.
+  inversion C; subst;
+    match goal with S1 : sb_start g st ans = _, S2 : sb_appends g _ _ s = _ |- _ =>
+      destruct (store_mid_count _ _ _ _ _ _ _ _ _ _ K S1 S2) as [L1 [->|L2]] end;
+    rewrite ?app_length; cbn [length]; lia.
+Qed.
+
+Corollary store_events_log : forall g st ans s st' ans' ev r,
+  SInv g st -> sb_store g st ans s = (st', ans', ev, r) ->
+  N.of_nat (length ev) <= N.log2 (blen s + 32).
+Proof.
+  intros g st ans s st' ans' ev r K H.
+  pose proof (store_events_count _ _ _ _ _ _ _ _ K H) as L.
+  assert (A : N.log2 32 <= N.log2 (blen s + 32)) by (apply N.log2_le_mono; lia).
+  assert (B : N.log2 (blen s) <= N.log2 (blen s + 32)) by (apply N.log2_le_mono; lia).
+  change (N.log2 32) with 5 in A. lia.
+Qed.
+
+Lemma log2_of_nat : forall n, (0 < n)%nat -> N.log2 (N.of_nat n) = N.of_nat (Nat.log2 n).
+Proof.
+  intros n H. apply N.log2_unique; [lia|]. destruct (Nat.log2_spec n H) as [A B]. split.
+  - change 2 with (N.of_nat 2). rewrite <- Nat2N.inj_pow. lia.
+  - rewrite <- Nat2N.inj_succ. change 2 with (N.of_nat 2). rewrite <- Nat2N.inj_pow. lia.
+Qed.
+
+Corollary store_events_log_nat : forall g st ans s st' ans' ev r,
+  SInv g st -> sb_store g st ans s = (st', ans', ev, r) ->
+  (length ev <= 2 * Nat.log2 (length s + 32) + 4)%nat.
+Proof.
+  intros g st ans s st' ans' ev r K H.
+  pose proof (store_events_log _ _ _ _ _ _ _ _ K H) as L.
+  assert (E : N.log2 (blen s + 32) = N.of_nat (Nat.log2 (length s + 32))).
+  { unfold blen. replace (N.of_nat (length s) + 32) with (N.of_nat (length s + 32)) by lia.
+    apply log2_of_nat. lia. }
+  rewrite E in L. lia.
+Qed.
+
+(* every size handed to the allocator is the size of a node whose capacity fits the length field *)
+Theorem store_events_ok : forall g st ans s st' ans' ev r,
+  SInv g st -> sb_store g st ans s = (st', ans', ev, r) -> Forall (ev_ok g) ev.
+Proof.
+  intros g st ans s st' ans' ev r [_ K] H.
+  pose proof (store_cases g st ans s) as C. rewrite H in C.
+  assert (G : forall st1 ans1 e1 st2 ans2 e2,
+            sb_start g st ans = (st1, ans1, e1) -> sb_appends g st1 ans1 s = (st2, ans2, e2) ->
+            Forall (ev_ok g) (e1 ++ e2)).
+  { intros st1 ans1 e1 st2 ans2 e2 S1 S2. apply Forall_app. split.
+    - destruct (start_events _ _ _ _ _ _ S1) as [->|(M & _ & b & ->)]; constructor; [|constructor].
+      exists 31. auto.
+    - pose proof (start_scratch_ok _ _ _ _ _ _ S1 K) as K1.
+      destruct (sb_scratch st1) as [[[cap sz] rw]|] eqn:E1.
+      + destruct K1 as (_ & _ & K1 & _). eapply appends_ev_ok; eassumption.
+      + rewrite appends_none in S2 by exact E1. inversion S2; subst. constructor. }
+  inversion C; subst.
+  - eapply G; eassumption.
+  - eapply G; eassumption.
+  - rewrite app_assoc. apply Forall_app. split; [eapply G; eassumption|].
+    constructor; [|constructor].
+    match goal with S1 : sb_start g st ans = _, S2 : sb_appends g _ _ s = _ |- _ =>
+      pose proof (store_mid_ok _ _ _ _ _ _ _ _ _ _ S1 S2 K) as K2 end.
+    match goal with E2 : sb_scratch _ = Some (cap, _, _) |- _ => rewrite E2 in K2 end.
+    destruct K2 as (_ & K2 & K3 & _). exists cap, (blen s). repeat split; try assumption. lia.
+Qed.
+
+(* a string that was not in the pool: the scratch node becomes the pool node; the last event shrinks it to
+   exactly the string *)
+Theorem store_new_node : forall g st ans s st' ans' ev x,
+  SInv g st -> pool_find s (sb_pool st) = None ->
+  sb_store g st ans s = (st', ans', ev, Some x) ->
+  x = fresh s /\ sb_pool st' = fresh s :: sb_pool st /\ sb_scratch st' = None /\
+  exists e12 cap, ev = e12 ++ [EvRealloc (size_for g cap) (size_for g (N.of_nat (length s))) true] /\
+                  N.of_nat (length s) <= cap /\ cap <= s_max g /\ 31 <= cap.
+Proof.
+  intros g st ans s st' ans' ev x [_ K] F H.
+  pose proof (store_cases g st ans s) as C. rewrite H in C.
+  inversion C; subst; [congruence|].
+  cbn [mk sb_pool sb_scratch]. split; [reflexivity|]. split; [reflexivity|]. split; [reflexivity|].
+  exists (e1 ++ e2), cap. split; [rewrite app_assoc; reflexivity|].
+  match goal with S1 : sb_start g st ans = _, S2 : sb_appends g _ _ s = _ |- _ =>
+    pose proof (store_mid_ok _ _ _ _ _ _ _ _ _ _ S1 S2 K) as K2 end.
+  match goal with E2 : sb_scratch _ = Some (cap, _, _) |- _ => rewrite E2 in K2 end.
+  destruct K2 as (_ & K2 & K3 & K4). unfold blen in K2. auto.
+Qed.
+
+(* ------------------------------------------------------------------------------------------------ *)
+(* 6. dereference                                                                                     *)
+
+Theorem deref_last_ref : forall g st s k x,
+  pool_find s (sb_pool st) = Some k -> nth_error (sb_pool st) k = Some x -> n_refs x = 1 ->
+  sb_deref g st s = (mk (firstn k (sb_pool st) ++ skipn (S k) (sb_pool st)) (sb_scratch st),
+                     [EvFree (size_for g (n_len x))]).
+Proof.
+  intros g st s k x F Hx R. unfold sb_deref. rewrite (deref_last g s _ k x F Hx R). reflexivity.
+Qed.
+
+Theorem deref_shared_ref : forall g st s k x,
+  pool_find s (sb_pool st) = Some k -> nth_error (sb_pool st) k = Some x -> n_refs x <> 1 ->
+  sb_deref g st s = (mk (firstn k (sb_pool st) ++ unbump x :: skipn (S k) (sb_pool st)) (sb_scratch st), []).
+Proof.
+  intros g st s k x F Hx R. unfold sb_deref. rewrite (deref_shared g s _ k x F Hx R). reflexivity.
+Qed.
+
+Theorem deref_absent_ref : forall g st s,
+  ~ In s (map n_content (sb_pool st)) -> sb_deref g st s = (st, []).
+Proof.
+  intros g st s H. apply pool_find_none in H. unfold sb_deref. rewrite (deref_absent g s _ H).
+  destruct st; reflexivity.
+Qed.
+
+(* the same, for a node of a pool that satisfies the invariant: the node dereferenced is that very node *)
+Lemma pool_find_node : forall g st x, SInv g st -> In x (sb_pool st) ->
+  exists k, pool_find (n_content x) (sb_pool st) = Some k /\ nth_error (sb_pool st) k = Some x.
+Proof.
+  intros g st x [[_ ND] _] I.
+  destruct (pool_find_in (n_content x) (sb_pool st) (in_map _ _ _ I)) as (k & F).
+  exists k. split; [exact F|].
+  destruct (In_nth_error _ _ I) as (j & Hj).
+  rewrite <- (pool_find_unique _ _ _ _ _ ND F Hj eq_refl). exact Hj.
+Qed.
+
+Theorem deref_node_last : forall g st x, SInv g st -> In x (sb_pool st) -> n_refs x = 1 ->
+  exists k, nth_error (sb_pool st) k = Some x /\
+    sb_deref g st (n_content x) =
+      (mk (firstn k (sb_pool st) ++ skipn (S k) (sb_pool st)) (sb_scratch st), [EvFree (size_for g (n_len x))]).
+Proof.
+  intros g st x K I R. destruct (pool_find_node g st x K I) as (k & F & Hk).
+  exists k. split; [exact Hk|]. apply deref_last_ref; assumption.
+Qed.
+
+Theorem deref_node_shared : forall g st x, SInv g st -> In x (sb_pool st) -> 1 < n_refs x ->
+  exists k, nth_error (sb_pool st) k = Some x /\
+    sb_deref g st (n_content x) =
+      (mk (firstn k (sb_pool st) ++ unbump x :: skipn (S k) (sb_pool st)) (sb_scratch st), []).
+Proof.
+  intros g st x K I R. destruct (pool_find_node g st x K I) as (k & F & Hk).
+  exists k. split; [exact Hk|]. apply deref_shared_ref; try assumption. lia.
+Qed.
+
+(* store, then dereference: the pool is as before *)
+Definition pool_drop (g : sgeom) (s : bytes) (p : list snode) : list snode := fst (pool_deref g s p).
+
+Lemma deref_pool : forall g st s, sb_pool (fst (sb_deref g st s)) = pool_drop g s (sb_pool st).
+Proof.
+  intros g st s. unfold sb_deref, pool_drop. destruct (pool_deref g s (sb_pool st)) as [p' e]. reflexivity.
+Qed.
+
+Lemma deref_scratch : forall g st s, sb_scratch (fst (sb_deref g st s)) = sb_scratch st.
+Proof.
+  intros g st s. unfold sb_deref. destruct (pool_deref g s (sb_pool st)) as [p' e]. reflexivity.
+Qed.
+
+Lemma drop_addref : forall g s p k, Forall (node_ok g) p -> pool_find s p = Some k ->
+  pool_drop g s (pool_addref k p) = p.
+Proof.
+  intros g s. unfold pool_drop. induction p as [|x r IH]; intros k F H; [discriminate|].
+  inversion F as [|? ? Fx Fr]; subst.
+  cbn [pool_find] in H. destruct (bytes_eqb s (n_content x)) eqn:E.
+  - inversion H; subst. cbn [pool_addref pool_deref]. fold (bump x). rewrite content_bump, E.
+    destruct Fx as (_ & _ & R).
+    assert (Q : (n_refs (bump x) =? 1) = false) by (apply N.eqb_neq; cbn [bump n_refs]; lia).
+    rewrite Q. cbn [fst]. fold (unbump (bump x)). rewrite unbump_bump. reflexivity.
+  - destruct (pool_find s r) as [k'|] eqn:F'; [|discriminate]. inversion H; subst.
+    cbn [pool_addref pool_deref]. rewrite E. specialize (IH k' Fr eq_refl).
+    destruct (pool_deref g s (pool_addref k' r)) as [r' e]. cbn [fst] in *. congruence.
+Qed.
+
+Lemma drop_put : forall g s p, Forall (node_ok g) p -> pool_drop g s (pool_put s p) = p.
+Proof.
+  intros g s p F. unfold pool_put. destruct (pool_find s p) as [k|] eqn:E.
+  - apply drop_addref; assumption.
+  - unfold pool_drop. cbn [pool_deref]. rewrite content_fresh, sb_beq_refl. reflexivity.
+Qed.
+
+Theorem store_deref_1 : forall g st ans s st' ans' ev x,
+  SInv g st -> sb_store g st ans s = (st', ans', ev, Some x) ->
+  sb_pool (fst (sb_deref g st' s)) = sb_pool st.
+Proof.
+  intros g st ans s st' ans' ev x [[F _] _] H.
+  destruct (store_result _ _ _ _ _ _ _ _ H) as [P _].
+  rewrite deref_pool, P. apply drop_put. exact F.
+Qed.
+
+(* n successful stores of the same string ... *)
+Fixpoint store_n (g : sgeom) (st : sbs) (ans : list bool) (s : bytes) (n : nat) : option (sbs * list bool) :=
+  match n with
+  | O => Some (st, ans)
+  | S n' => match sb_store g st ans s with
+            | (st', ans', _, Some _) => store_n g st' ans' s n'
+            | _ => None
+            end
+  end.
+(* ... then n dereferences *)
+Fixpoint deref_n (g : sgeom) (st : sbs) (s : bytes) (n : nat) : sbs :=
+  match n with
+  | O => st
+  | S n' => fst (sb_deref g (deref_n g st s n') s)
+  end.
+
+Theorem store_deref_n : forall g s n st ans st' ans',
+  SInv g st -> store_n g st ans s n = Some (st', ans') ->
+  sb_pool (deref_n g st' s n) = sb_pool st.
+Proof.
+  intros g s. induction n as [|n IH]; intros st ans st' ans' K H; cbn [store_n deref_n] in *.
+  - inversion H; subst. reflexivity.
+  - destruct (sb_store g st ans s) as [[[st1 ans1] ev] [x|]] eqn:S1; [|discriminate].
+    rewrite deref_pool.
+    rewrite (IH st1 ans1 st' ans' (store_SInv _ _ _ _ _ _ _ _ K S1) H).
+    rewrite <- deref_pool. eapply store_deref_1; eassumption.
+Qed.
+
+(* further stores of the string held by the newest node only count references *)
+Lemma store_n_head : forall g s m st1 ans1 x1 rest st' ans',
+  SInv g st1 -> sb_pool st1 = x1 :: rest -> n_content x1 = s ->
+  store_n g st1 ans1 s m = Some (st', ans') ->
+  exists x, sb_pool st' = x :: rest /\ n_len x = n_len x1 /\ n_data x = n_data x1 /\
+            n_refs x = n_refs x1 + N.of_nat m.
+Proof.
+  intros g s. induction m as [|m IHm]; intros st1 ans1 x1 rest st' ans' K1 P C H; cbn [store_n] in H.
+  - inversion H; subst. exists x1. rewrite N.add_0_r. auto.
+  - destruct (sb_store g st1 ans1 s) as [[[st2 ans2] ev2] [x2|]] eqn:S2; [|discriminate].
+    assert (F1 : pool_find s (sb_pool st1) = Some O).
+    { rewrite P. cbn [pool_find]. rewrite C, sb_beq_refl. reflexivity. }
+    assert (Y1 : nth_error (sb_pool st1) O = Some x1) by (rewrite P; reflexivity).
+    destruct (store_shared _ _ _ _ _ _ _ _ _ _ F1 Y1 S2) as (_ & P2 & _).
+    rewrite P in P2. cbn [pool_addref] in P2. fold (bump x1) in P2.
+    destruct (IHm st2 ans2 (bump x1) rest st' ans' (store_SInv _ _ _ _ _ _ _ _ K1 S2) P2 C H)
+      as (x & Q1 & Q2 & Q3 & Q4).
+    exists x. repeat split; try assumption. rewrite Q4. cbn [bump n_refs]. lia.
+Qed.
+
+(* after n >= 1 stores of a string that was not in the pool there is one node for it, with n references *)
+Theorem store_n_refs : forall g s n st ans st' ans',
+  SInv g st -> pool_find s (sb_pool st) = None ->
+  store_n g st ans s (S n) = Some (st', ans') ->
+  sb_pool st' = {| n_len := blen s; n_data := s; n_refs := N.of_nat (S n) |} :: sb_pool st.
+Proof.
+  intros g s n st ans st' ans' K F H. cbn [store_n] in H.
+  destruct (sb_store g st ans s) as [[[st1 ans1] ev] [x|]] eqn:S1; [|discriminate].
+  destruct (store_new_node _ _ _ _ _ _ _ _ K F S1) as (-> & P & _).
+  destruct (store_n_head g s n st1 ans1 (fresh s) (sb_pool st) st' ans'
+              (store_SInv _ _ _ _ _ _ _ _ K S1) P (content_fresh s) H) as (x & Q1 & Q2 & Q3 & Q4).
+  rewrite Q1. f_equal. destruct x as [l d r]. cbn [fresh n_len n_data n_refs] in *. subst. f_equal. lia.
+Qed.
+
+(* ------------------------------------------------------------------------------------------------ *)
+(* 7. examples (StringNode header of 14 bytes, 16-bit length field)                                   *)
+
+Definition ex_g : sgeom := {| s_hdr := 14; s_max := 65535 |}.
+Definition ex_hello : bytes := [104; 101; 108; 108; 111].
+Definition ex_r1 := sb_store ex_g sb_init [] ex_hello.
+Definition ex_r2 := sb_store ex_g (fst (fst (fst ex_r1))) [] ex_hello.
+Definition ex_r3 := sb_store ex_g (fst (fst (fst ex_r2))) [] (repeat 97 31).
+Definition ex_r4 := sb_store ex_g (fst (fst (fst ex_r3))) [] (repeat 98 32).
+
+(* "hello", "hello" again, a 31-character string, a 32-character string: the second store finds the string and
+   keeps the scratch node; the third reuses it and shrinks it to the same size; the fourth grows once *)
+Example ex_events :
+  snd (fst ex_r1) = [EvAlloc 46 true; EvRealloc 46 20 true] /\
+  snd (fst ex_r2) = [EvAlloc 46 true] /\
+  snd (fst ex_r3) = [EvRealloc 46 46 true] /\
+  snd (fst ex_r4) = [EvAlloc 46 true; EvRealloc 46 78 true; EvRealloc 78 47 true].
+Proof. vm_compute. repeat split; reflexivity. Qed.
+
+Example ex_shared :
+  snd ex_r2 = Some {| n_len := 5; n_data := ex_hello; n_refs := 2 |} /\
+  sb_scratch (fst (fst (fst ex_r2))) = Some (31, 5, rev ex_hello) /\
+  map n_refs (sb_pool (fst (fst (fst ex_r4)))) = [1; 1; 2].
+Proof. vm_compute. repeat split; reflexivity. Qed.
+
+(* the allocator refuses the growth: the node is freed, nothing is stored, the pool is untouched *)
+Example ex_refused :
+  sb_store ex_g sb_init [true; false] (repeat 98 32) =
+    (sb_init, [], [EvAlloc 46 true; EvRealloc 46 78 false; EvFree 46], None).
+Proof. vm_compute. reflexivity. Qed.
+
+(* an 8-bit length field: 255 characters are stored, 256 are not *)
+Example ex_255 :
+  let g8 := {| s_hdr := 6; s_max := 255 |} in
+  (exists x, snd (sb_store g8 sb_init [] (repeat 97 255)) = Some x /\ n_len x = 255) /\
+  snd (sb_store g8 sb_init [] (repeat 97 256)) = None /\
+  snd (fst (sb_store g8 sb_init [] (repeat 97 256))) =
+    [EvAlloc 38 true; EvRealloc 38 70 true; EvRealloc 70 134 true; EvRealloc 134 262 true; EvFree 262].
+Proof. vm_compute. split; [eexists; split; reflexivity|split; reflexivity]. Qed.
+
+(* a length field that is not of the form 2^k - 1 wastes the top of its range: with maxLength = 100 the
+   capacities are 31 and 63 only, and a 64-character string is refused although 64 <= 100 *)
+Example ex_not_pow :
+  let g100 := {| s_hdr := 6; s_max := 100 |} in
+  top_cap g100 = 63 /\
+  snd (sb_store g100 sb_init [] (repeat 97 64)) = None /\
+  (exists x, snd (sb_store g100 sb_init [] (repeat 97 63)) = Some x).
+Proof. vm_compute. split; [reflexivity|split; [reflexivity|eexists; reflexivity]]. Qed.
